@@ -435,6 +435,8 @@ class Gen:
             # the simplified constructor turns the cycle count into a repetition count: 0 is outside ">= 1"
             cyc = rng.choice([0, 1, 1, 2, 2, 3]) if ctor == "rep" else rng.choice([1, 2, 2, 3])
             args = {"cycles": cyc, "state": [rng.choice(STATES[:2]) for _ in range(rng.choice([2, 2, 3]))]}
+            if rng.random() < 0.25:
+                args["refocus"] = False
         elif ctor == "multi":
             args = {"rounds": rng.sample([0, 1, 2], rng.randint(1, 2)), "state": [rng.choice(STATES[:2]) for _ in range(2)]}
         else:
@@ -656,7 +658,7 @@ class Gen:
         self.mk_obs(0)
 
     SCENARIOS = {
-        "C11": [(0.25, "sc_lib_apply_flatten")],
+        "C11": [(0.15, "sc_lib_apply_flatten")],
         "C06": [(0.12, "sc_lib_apply_flatten"), (0.12, "sc_nested_reps"), (0.06, "sc_unroll_then_copy")],
         "C08": [(0.12, "sc_lib_apply_flatten"), (0.08, "sc_nested_reps")],
         "C07": [(0.12, "sc_lib_apply_flatten"), (0.05, "sc_nested_reps")],
